@@ -48,6 +48,7 @@ def check(run, prog, tier):
     # ---- C09-a
     be = run.need(prog.func("backend"), "backend")
     run.saw(be)
+    ctxstate.find_restore_wrappers(prog)
     a = ctxstate.CtxAnalysis(be, eff).run()
     unarmed = []
     for kind, v, blk, idx, n, cur in a.events:
